@@ -46,6 +46,7 @@ type Harness struct {
 	Frozen   bool               `json:"frozen_inputs"`
 	ExpectReach []string        `json:"expect_reach"`
 	SymbolicText bool           `json:"symbolic_text"`
+	FixedClock   bool           `json:"fixed_clock"`
 }
 
 type Index struct {
@@ -314,7 +315,7 @@ func runHarness(ix *Index, h *Harness, tier string, solverOverride string) *RunR
 
 	e := &Engine{prog: prog, sv: NewSolver(solver, tc.QueryMs), globals: map[*ssa.Global]ObjID{}, Unsupp: map[string]int{}, MaxIter: tc.Unwind,
 		Entered: map[string]bool{}, Reached: map[string]*Vector{}, ReachObs: map[string][]string{}, maxPaths: tc.Paths, params: tc.Params, pins: h.Pins,
-		harnessID: h.ID, entryName: h.Entry, target: target, seenViol: map[string]bool{}, initPkgs: map[string]bool{}, frozenInputs: h.Frozen, symbolicText: h.SymbolicText}
+		harnessID: h.ID, entryName: h.Entry, target: target, seenViol: map[string]bool{}, initPkgs: map[string]bool{}, frozenInputs: h.Frozen, symbolicText: h.SymbolicText, fixedClock: h.FixedClock}
 	e.known = loadKnown(h.ID)
 	st := newState()
 	e.tolerant = true
